@@ -32,8 +32,14 @@ def synth_state(rng, f, t):
         Ns = np.array([loguniform(rng, 1e-3, 1e6) if rng.random() < 0.85 else 0.0 for _ in Ns])
     if rng.random() < 0.3:
         alpha = np.array([rng.choice([-1.0, -2.0, -2.35, 0.0]) if rng.random() < 0.3 else rng.uniform(-4, 2) for _ in alpha])
-    rest = [np.array([loguniform(rng, 1e-2, 1e4) if rng.random() < 0.5 else 0.0 for _ in p]) for p in parts[2:]]
-    return mb.pack_values(Ns, alpha, *rest)
+    # remnants: counts anywhere (zeros included); masses consistent with them (mean mass inside the bin)
+    Nrem, Mrem = [], []
+    for cls in ("WD", "NS", "BH"):
+        b = getattr(mb.bins, cls)
+        n = np.array([loguniform(rng, 1e-2, 1e4) if rng.random() < 0.6 else 0.0 for _ in np.atleast_1d(b.lower)])
+        mean = np.array([rng.uniform(float(l), float(u)) for l, u in zip(np.atleast_1d(b.lower), np.atleast_1d(b.upper))])
+        Nrem.append(n); Mrem.append(n * mean)
+    return mb.pack_values(Ns, alpha, *Nrem, *Mrem)
 
 
 def real_sev(f, t, y):
